@@ -189,8 +189,8 @@ def handleSplit (d : DState) (name h : String) (rest : List String) : Option (DS
       | none => none
       | some e2 =>
         match merge d.lay (partOf e) (partOf e2) with
-        -- a rejected merge unwinds: both boxes are dropped by the unwind
-        | none => some (del (del d h) h2, s!"drops={csv (idsOf (e.vec.slots.take e.vec.len) ++ idsOf (e2.vec.slots.take e2.vec.len))} exit=panic")
+        -- a rejected merge unwinds: both boxes are dropped by the unwind (parameters in reverse order: `other`, then `self`)
+        | none => some (del (del d h) h2, s!"drops={csv (idsOf (e2.vec.slots.take e2.vec.len) ++ idsOf (e.vec.slots.take e.vec.len))} exit=panic")
         | some pm => some (putPart (del (del d h) h2) m e.kind pm, s!"{showPart m pm} exit=ret")
     | _ => none
   | _, _, _, _ => none
